@@ -63,6 +63,12 @@ def make_property(rng, sk, pk, widths, binding_sensitive=False):
                 pred = None  # the activator matches messages of either payload: which one binds the alias matters
             elif binding_sensitive and visible and k < 0.75:
                 pred = ('bin', gen.pick(rng, ('=', '!=')), X, ('field', A.var(gen.pick(rng, visible)), 'x'))
+            elif k < 0.05:
+                # predicates that are tautologies or contradictions without being literals
+                a0 = ('bin', '=', X, A.num(str(rng.randrange(2))))
+                pred = gen.pick(rng, (('bin', 'or', a0, A.not_(a0)), ('bin', '=', X, X), ('bin', 'implies', a0, a0),
+                                      ('bin', 'and', a0, A.not_(a0)), ('bin', '<=', A.num('1'), A.num('2')),
+                                      A.not_(('bin', 'and', a0, A.not_(a0)))))
             elif k < 0.25:
                 pred = ('bin', '=', X, A.num(str(rng.randrange(2))))
             elif k < 0.55 and visible:
